@@ -24,11 +24,26 @@ OnePlan(ch, oc) == [kids |-> [s \in DOMAIN ch |-> << >>],
                     out  |-> [s \in DOMAIN ch |-> IF oc[s] = "planpanic" THEN "ok" ELSE oc[s]],
                     root |-> [s \in DOMAIN ch |-> s]]
 
-MCInit == \E ch \in MCTrees :
-            \E as \in [DOMAIN ch -> BOOLEAN] :
-              \E oc \in [DOMAIN ch -> {"ok", "err", "panic", "planpanic"}] :
-                InitWith(ch, "r", as, [s \in DOMAIN ch |-> IF oc[s] = "planpanic" THEN "planpanic" ELSE "tree"],
-                         OnePlan(ch, oc))
+\* a panic while a stage plans / registers its next stages: at most one stage of the tree has one, either in
+\* NextStages() itself (0) or in the Identifier() of its k-th next stage (k); the operators of those trees return
+\* ok / err only (operator panics and plan panics are explored by the first disjunct)
+NextPanicChoices(ch) ==
+  {[s \in DOMAIN ch |-> IF s = p THEN k ELSE -1] : p \in DOMAIN ch, k \in 0..3} \cap
+  {np \in [DOMAIN ch -> -1..3] : \A s \in DOMAIN ch : np[s] <= Len(ch[s])}
+CONSTANT WithNextPanic
+
+MCInit ==
+  \/ \E ch \in MCTrees :
+       \E as \in [DOMAIN ch -> BOOLEAN] :
+         \E oc \in [DOMAIN ch -> {"ok", "err", "panic", "planpanic"}] :
+           InitWith(ch, "r", as, [s \in DOMAIN ch |-> IF oc[s] = "planpanic" THEN "planpanic" ELSE "tree"],
+                    OnePlan(ch, oc), NoNextPanic(ch))
+  \/ /\ WithNextPanic
+     /\ \E ch \in MCTrees :
+          \E as \in [DOMAIN ch -> BOOLEAN] :
+            \E oc \in [DOMAIN ch -> {"ok", "err"}] :
+              \E np \in NextPanicChoices(ch) :
+                InitWith(ch, "r", as, [s \in DOMAIN ch |-> "tree"], OnePlan(ch, oc), np)
 
 MCSpec == MCInit /\ [][Next]_vars /\ WF_vars(Next)
 =============================================================================
